@@ -153,15 +153,15 @@ theorem accepted_call_resolves {e : Env} {t dd : Ty} (h : StructEnv e t dd) (σ 
         · exact ⟨f.ty, by simp [hk]⟩
         · exact ⟨f.ty, by simp [hk, Defects.repaired]⟩
 
-/-- **The checker's member type is Go's**: on a struct (or pointer to struct) the repaired `fieldType`
-accepts exactly the exported fields `reflect.FieldByName` resolves, with their types. -/
+/-- **The checker's member type is Go's**: on a struct (through any number of pointers) the repaired
+`fieldType` accepts exactly the exported fields `reflect.FieldByName` resolves, with their types. -/
 theorem fieldType_agrees_with_go (k : Nat) (t : Ty) (n : String) (τ : Ty)
-    (hs : t.fetchBase.kind = .struct) :
+    (hs : t.deref.kind = .struct) :
     fieldType .repaired (k + 1) t n = some τ ↔
-      ∃ f, reflField t.fetchBase n = .found f ∧ f.exported = true ∧ f.ty = τ := by
+      ∃ f, reflField t.deref n = .found f ∧ f.exported = true ∧ f.ty = τ := by
   rw [fieldType_repaired_succ, hs]
   simp only []
-  cases hr : reflField t.fetchBase n with
+  cases hr : reflField t.deref n with
   | notFound => simp
   | ambiguous => simp
   | found f =>
@@ -172,12 +172,12 @@ theorem fieldType_agrees_with_go (k : Nat) (t : Ty) (n : String) (τ : Ty)
 /-- **Accepted member ⇒ fetchable with the assumed type**, for every receiver whose static type is not an
 interface (an interface-typed receiver carries no static claim: every name is accepted). -/
 theorem member_accepted_resolves (k : Nat) (t : Ty) (n : String) (τ : Ty)
-    (hacc : fieldType .repaired (k + 1) t n = some τ) (hstatic : t.fetchBase.kind ≠ .iface) :
+    (hacc : fieldType .repaired (k + 1) t n = some τ) (hstatic : t.deref.kind ≠ .iface) :
     fetchTy .repaired t n = some τ := by
   rw [fieldType_repaired_succ] at hacc
   unfold fetchTy
-  simp only []
-  cases hk : t.fetchBase.kind <;> rw [hk] at hacc <;> simp only [] at hacc <;> try (cases hacc)
+  simp only [fetchBase_repaired]
+  cases hk : t.deref.kind <;> rw [hk] at hacc <;> simp only [] at hacc <;> try (cases hacc)
   · exact absurd hk hstatic
   · -- map
     obtain ⟨kt, vt, hc⟩ := Ty.kind_map_iff.1 hk
@@ -189,7 +189,7 @@ theorem member_accepted_resolves (k : Nat) (t : Ty) (n : String) (τ : Ty)
   · -- struct
     obtain ⟨fs, hc⟩ := Ty.kind_struct_iff.1 hk
     simp only [hc]
-    cases hr : reflField t.fetchBase n with
+    cases hr : reflField t.deref n with
     | notFound => rw [hr] at hacc; cases hacc
     | ambiguous => rw [hr] at hacc; cases hacc
     | found f =>
@@ -305,32 +305,32 @@ theorem resolves_accepted_partial {e : Env} {t dd : Ty} (h : StructEnv e t dd) (
 
 /-- **Members, as the code is today**: on a struct without embedded fields the depth-first
 `fieldType` is Go's rule (excludes `c16:member-type-depth-first-differs-from-go`,
-`c16:ambiguous-member-accepted`), reached through at most one pointer (excludes
-`c16:member-through-pointer-not-fetchable`), for exported fields. -/
+`c16:ambiguous-member-accepted`), reached the way `fetch` reaches it, i.e. through at most one pointer
+(`hderef`, excludes `c16:member-through-pointer-not-fetchable`), for exported fields. -/
 theorem member_accepted_resolves_partial (k : Nat) (t : Ty) (n : String) (τ : Ty)
     (hacc : fieldType .asIs (k + 1) t n = some τ)
-    (hderef : t.deref = t.fetchBase) (hs : t.fetchBase.kind = .struct)
-    (hnoemb : t.fetchBase.embedded = []) (hnames : (t.fetchBase.fields.map Field.name).Nodup)
-    (hexported : ∀ f ∈ t.fetchBase.fields, f.name = n → f.exported = true) :
+    (hderef : t.fetchBase .asIs = t.deref) (hs : t.deref.kind = .struct)
+    (hnoemb : t.deref.embedded = []) (hnames : (t.deref.fields.map Field.name).Nodup)
+    (hexported : ∀ f ∈ t.deref.fields, f.name = n → f.exported = true) :
     fetchTy .asIs t n = some τ := by
   unfold fieldType at hacc
-  simp only [Defects.asIs, if_true, hderef, hs, Bool.true_or, Bool.and_true] at hacc
-  have hemb : List.filter (fun x => x.anon) t.fetchBase.fields = [] := hnoemb
+  simp only [Defects.asIs, if_true, hs, Bool.true_or, Bool.and_true] at hacc
+  have hemb : List.filter (fun x => x.anon) t.deref.fields = [] := hnoemb
   rw [hemb] at hacc
-  cases hfind : t.fetchBase.fields.find? (fun f => decide (f.name = n)) with
+  cases hfind : t.deref.fields.find? (fun f => decide (f.name = n)) with
   | none => rw [hfind] at hacc; simp [firstSome] at hacc
   | some f =>
     rw [hfind] at hacc
     simp only [Option.some.injEq] at hacc
     have hmem := List.mem_of_find?_eq_some hfind
     have hname : f.name = n := by simpa using List.find?_some hfind
-    have hocc : occAt 0 t.fetchBase n = [f] := by
+    have hocc : occAt 0 t.deref n = [f] := by
       rw [occAt_zero]; exact filter_name_eq_singleton n _ f hnames hmem hname
-    have hr : reflField t.fetchBase n = .found f :=
+    have hr : reflField t.deref n = .found f :=
       (reflField_found_iff _ n f).2 ⟨0, fun j hj => absurd hj (Nat.not_lt_zero j), hocc⟩
     obtain ⟨fs, hc⟩ := Ty.kind_struct_iff.1 hs
     unfold fetchTy
-    simp only [hc, hr, hexported f hmem hname, if_true]
+    simp only [hderef, hc, hr, hexported f hmem hname, if_true]
     rw [hacc]
 
 /-! ## witnesses: the concrete failing inputs on the model of the unchanged code
@@ -441,7 +441,7 @@ theorem member_witness :
     fieldType .repaired 10 EnvAmbig "X" = none ∧
     -- **struct
     fieldType .asIs 10 (.ptr (.ptr ZA)) "X" = some tInt ∧ fetchTy .asIs (.ptr (.ptr ZA)) "X" = none ∧
-    fieldType .repaired 10 (.ptr (.ptr ZA)) "X" = none ∧
+    fetchTy .repaired (.ptr (.ptr ZA)) "X" = some tInt ∧
     -- map[int]string
     fieldType .asIs 10 (.map tInt .string) "k" = some .string ∧ fetchTy .asIs (.map tInt .string) "k" = none ∧
     fieldType .repaired 10 (.map tInt .string) "k" = none := by
@@ -465,7 +465,7 @@ def resolves_accepted_goal (d : Defects) : Prop :=
 /-- accepted member ⇒ fetchable with the assumed type (receiver not of interface type) -/
 def member_accepted_resolves_goal (d : Defects) : Prop :=
   ∀ (k : Nat) (t : Ty) (n : String) (τ : Ty), fieldType d (k + 1) t n = some τ →
-    t.fetchBase.kind ≠ .iface → fetchTy d t n = some τ
+    t.deref.kind ≠ .iface → fetchTy d t n = some τ
 
 theorem accepted_resolves_repaired : accepted_resolves_goal .repaired :=
   fun _ _ _ h _ σ hσ _ ht n τ hacc => accepted_resolves h σ hσ ht n τ hacc
